@@ -7,9 +7,9 @@ import (
 	"errors"
 	"time"
 
+	"github.com/attestantio/go-block-relay/services/blockauctioneer"
 	builderapi "github.com/attestantio/go-builder-client/api"
 	builderspec "github.com/attestantio/go-builder-client/spec"
-	"github.com/attestantio/go-block-relay/services/blockauctioneer"
 	"github.com/attestantio/go-eth2-client/api"
 	apiv1bellatrix "github.com/attestantio/go-eth2-client/api/v1/bellatrix"
 	apiv1capella "github.com/attestantio/go-eth2-client/api/v1/capella"
@@ -23,8 +23,10 @@ import (
 	"github.com/attestantio/vouch/internal/vnd"
 	"github.com/attestantio/vouch/internal/vstub"
 	"github.com/attestantio/vouch/services/beaconblockproposer"
+	nullmetrics "github.com/attestantio/vouch/services/metrics/null"
 	"github.com/holiman/uint256"
 	"github.com/prysmaticlabs/go-bitfield"
+	"github.com/rs/zerolog"
 	e2wtypes "github.com/wealdtech/go-eth2-wallet-types/v2"
 )
 
@@ -49,16 +51,16 @@ func (h *c05Head) ExecutionChainHead(_ context.Context) (phase0.Hash32, uint64) 
 }
 
 type c05Relay struct {
-	name    string
-	mode    int // 0: full block, 1: error 400, 2: other error (every try), 3: neither response nor error
+	name     string
+	mode     int // 0: full block, 1: error 400, 2: other error (every try), 3: neither response nor error
 	calls    []*builderapi.UnblindProposalOpts
 	rejected int
 	payload  *api.VersionedSignedProposal
 }
 
-func (r *c05Relay) Name() string               { return r.name }
-func (r *c05Relay) Address() string            { return r.name }
-func (r *c05Relay) Pubkey() *phase0.BLSPubKey  { return nil }
+func (r *c05Relay) Name() string              { return r.name }
+func (r *c05Relay) Address() string           { return r.name }
+func (r *c05Relay) Pubkey() *phase0.BLSPubKey { return nil }
 func (r *c05Relay) BuilderBid(_ context.Context, _ *builderapi.BuilderBidOpts) (*builderapi.Response[*builderspec.VersionedSignedBuilderBid], error) {
 	return nil, errors.New("not used")
 }
@@ -187,6 +189,7 @@ var c05Versions = []spec.DataVersion{spec.DataVersionPhase0, spec.DataVersionAlt
 
 type c05Env struct {
 	s       *Service
+	ct      *vstub.ChainTime
 	duty    *beaconblockproposer.Duty
 	account *vstub.Account
 	graf    *c05Graffiti
@@ -201,6 +204,48 @@ type c05Env struct {
 	state   phase0.Root
 	version spec.DataVersion
 	blinded bool
+	// configuration chosen by the harness before the service is built
+	unblindFromAll bool
+}
+
+// c05BlobSigner is the (mandatory) blob sidecar signer; proposals never use it.
+type c05BlobSigner struct{}
+
+func (c05BlobSigner) SignBlobSidecar(_ context.Context, _ e2wtypes.Account, _ phase0.Slot, _ phase0.Root) (phase0.BLSSignature, error) {
+	return phase0.BLSSignature{}, errors.New("not used")
+}
+
+// c05New builds the service through its constructor.
+func c05New(params ...Parameter) *Service {
+	s, err := New(context.Background(), append([]Parameter{WithLogLevel(zerolog.Disabled), WithMonitor(&nullmetrics.Service{})}, params...)...)
+	vnd.Assert(err == nil && s != nil, "C05.new.accepted")
+	return s
+}
+
+// build creates the service from the environment's stubs, once every
+// configuration choice (auctioneer, graffiti provider, unblind-from-all) has been
+// made. The parts the constructor insists on but a proposal never touches
+// (validating accounts, RANDAO signer, blob sidecar signer) are inert stubs.
+func (e *c05Env) build() {
+	params := []Parameter{
+		WithChainTime(e.ct),
+		WithProposalDataProvider(e.props),
+		WithExecutionChainHeadProvider(&c05Head{}),
+		WithProposalSubmitter(e.sub),
+		WithBeaconBlockSigner(e.signer),
+		WithBuilderBoostFactor(100),
+		WithUnblindFromAllRelays(e.unblindFromAll),
+		WithValidatingAccountsProvider(&c05Accounts{fail: true}),
+		WithRANDAORevealSigner(&c05Randao{fail: true}),
+		WithBlobSidecarSigner(c05BlobSigner{}),
+	}
+	if e.auc != nil {
+		params = append(params, WithBlockAuctioneer(e.auc))
+	}
+	if e.graf != nil {
+		params = append(params, WithGraffitiProvider(e.graf))
+	}
+	e.s = c05New(params...)
 }
 
 func newC05Env(nrelays int, auctionMode int) *c05Env {
@@ -219,14 +264,7 @@ func newC05Env(nrelays int, auctionMode int) *c05Env {
 	e.duty.SetRandaoReveal(phase0.BLSSignature(vnd.Sig("randao")))
 	e.signer = &c05Signer{sig: phase0.BLSSignature(vnd.Sig("blocksig"))}
 	e.sub = &c05Submitter{}
-	e.s = &Service{
-		chainTime:                  vstub.NewChainTime(0),
-		proposalProvider:           e.props,
-		executionChainHeadProvider: &c05Head{},
-		proposalSubmitter:          e.sub,
-		beaconBlockSigner:          e.signer,
-		builderBoostFactor:         100,
-	}
+	e.ct = vstub.NewChainTime(0)
 	// relays and auction
 	for i := 0; i < nrelays; i++ {
 		r := &c05Relay{name: []string{"relay-a", "relay-b", "relay-c"}[i], mode: vnd.Choose("relay.mode", 4)}
@@ -238,7 +276,6 @@ func newC05Env(nrelays int, auctionMode int) *c05Env {
 	case 0: // no auctioneer configured
 	case 1:
 		e.auc = &c05Auctioneer{fail: true}
-		e.s.blockAuctioneer = e.auc
 	case 2:
 		res := &blockauctioneer.Results{}
 		for _, r := range e.relays {
@@ -250,7 +287,6 @@ func newC05Env(nrelays int, auctionMode int) *c05Env {
 			res.Providers = append(res.Providers, e.relays[i])
 		}
 		e.auc = &c05Auctioneer{results: res}
-		e.s.blockAuctioneer = e.auc
 	}
 	return e
 }
@@ -307,7 +343,7 @@ func VerifC05_ProposeFull() {
 func VerifC05_ProposeBlinded() {
 	e := newC05Env(vnd.IntRange("relays", 1, 2), 2)
 	vnd.Assume(e.blinded)
-	e.s.unblindFromAllRelays = vnd.Bool("unblind-from-all")
+	e.unblindFromAll = vnd.Bool("unblind-from-all")
 	c05Run(e)
 }
 
@@ -324,11 +360,10 @@ func c05Run(e *c05Env) {
 	switch graffitiMode {
 	case 1:
 		e.graf = &c05Graffiti{fail: true}
-		e.s.graffitiProvider = e.graf
 	case 2:
 		e.graf = &c05Graffiti{data: []byte("hello")}
-		e.s.graffitiProvider = e.graf
 	}
+	e.build()
 	// the job context: Propose is given a deadline so that the run ends even
 	// when no relay ever answers (that hang is C20's subject)
 	ctx, cancel := context.WithTimeout(context.Background(), 30*time.Second)
@@ -456,6 +491,7 @@ func VerifC16_ProposeBlindedWithoutAuction() {
 	e := newC05Env(0, vnd.Choose("auction.mode", 2))
 	vnd.Assume(e.blinded)
 	vnd.Assume(e.pslot == e.slot)
+	e.build()
 	ctx, cancel := context.WithTimeout(context.Background(), 30*time.Second)
 	defer cancel()
 	e.s.Propose(ctx, e.duty)
@@ -517,7 +553,10 @@ func VerifC05_Prepare() {
 	ct := vstub.NewChainTime(0)
 	accts := &c05Accounts{fail: vnd.Bool("accounts.fail"), none: vnd.Bool("accounts.none")}
 	randao := &c05Randao{fail: vnd.Bool("randao.fail"), sig: phase0.BLSSignature(vnd.Sig("reveal"))}
-	s := &Service{chainTime: ct, validatingAccountsProvider: accts, randaoRevealSigner: randao}
+	// the constructor insists on the proposing side too; Prepare never touches it
+	s := c05New(WithChainTime(ct), WithValidatingAccountsProvider(accts), WithRANDAORevealSigner(randao),
+		WithProposalDataProvider(&c05Proposals{fail: true}), WithProposalSubmitter(&c05Submitter{fail: true}),
+		WithBeaconBlockSigner(&c05Signer{fail: true}), WithBlobSidecarSigner(c05BlobSigner{}))
 	slot := phase0.Slot(vnd.U64("slot"))
 	vnd.Assume(uint64(slot) < 1<<40)
 	vi := phase0.ValidatorIndex(vnd.U64("validator"))
@@ -539,11 +578,53 @@ func VerifC05_Prepare() {
 	vnd.Cover("C05.prepare.ok")
 }
 
+// c05RandaoSeq answers every request with a reveal of its own (first byte = request number).
+type c05RandaoSeq struct {
+	accs  []e2wtypes.Account
+	slots []phase0.Slot
+}
+
+func (r *c05RandaoSeq) SignRANDAOReveal(_ context.Context, account e2wtypes.Account, slot phase0.Slot) (phase0.BLSSignature, error) {
+	r.accs = append(r.accs, account)
+	r.slots = append(r.slots, slot)
+	return phase0.BLSSignature{byte(len(r.accs)), 0xee}, nil
+}
+
+// VerifC05_PrepareTwice: two duties prepared one after the other on the same
+// proposer service - any two slots (same epoch or not), any two validators (the
+// same or not): each duty gets the reveal requested for its own validator's
+// account and its own slot; nothing from the first preparation shows in the second.
+func VerifC05_PrepareTwice() {
+	ct := vstub.NewChainTime(0)
+	accts := &c05Accounts{}
+	randao := &c05RandaoSeq{}
+	s := c05New(WithChainTime(ct), WithValidatingAccountsProvider(accts), WithRANDAORevealSigner(randao),
+		WithProposalDataProvider(&c05Proposals{fail: true}), WithProposalSubmitter(&c05Submitter{fail: true}),
+		WithBeaconBlockSigner(&c05Signer{fail: true}), WithBlobSidecarSigner(c05BlobSigner{}))
+	for k := 0; k < 2; k++ {
+		slot := phase0.Slot(vnd.U64("slot"))
+		vnd.Assume(uint64(slot) < 1<<40)
+		vi := phase0.ValidatorIndex(vnd.U64("validator"))
+		duty := beaconblockproposer.NewDuty(slot, vi)
+		err := s.Prepare(context.Background(), duty)
+		vnd.Assert(err == nil, "C05.prepare2.prepared")
+		vnd.Assert(len(randao.accs) == k+1, "C05.prepare2.reveal-requested-for-every-duty")
+		if len(randao.accs) != k+1 {
+			return
+		}
+		vnd.Assert(randao.slots[k] == slot && randao.accs[k].(*vstub.Account).VIndex == uint64(vi), "C05.prepare2.reveal-for-the-dutys-own-validator-and-slot")
+		vnd.Assert(duty.RANDAOReveal() == phase0.BLSSignature{byte(k + 1), 0xee}, "C05.prepare2.duty-carries-the-reveal-requested-for-it")
+		vnd.Assert(duty.Account() != nil && duty.Account().(*vstub.Account).VIndex == uint64(vi), "C05.prepare2.duty-carries-its-own-validators-account")
+	}
+	vnd.Cover("C05.prepare2.done")
+}
+
 // VerifC20_UnblindGoroutines: the proposal and its unblinding goroutines end
 // whatever the relays do (the job's context is never cancelled in production).
 func VerifC20_UnblindGoroutines() {
 	e := newC05Env(vnd.IntRange("relays", 1, 2), 2)
 	vnd.Assume(e.blinded && e.pslot == e.slot)
+	e.build()
 	e.s.Propose(context.Background(), e.duty)
 	left := vnd.Quiesce()
 	vnd.Assert(left == 0, "C20.unblind.no-goroutine-left-blocked")
